@@ -259,6 +259,45 @@ def run(prog, ctx):
                 else:
                     res.undecided += 1
     res.rule("C18.F", n_f, 5, "HLL image size formulas")
+    # ---------------- C18.P CPC pseudo-phase (selects the Huffman table and column permutation of the compressed image; a wrong
+    # phase between writer and foreign reader breaks compatibility, and the wrong table inflates the image past its bound)
+    def spec_phase(lg_k, c):
+        k = 1 << lg_k
+        if 1000 * c < 2375 * k:
+            if 4 * c < 3 * k:
+                return 16
+            if 10 * c < 11 * k:
+                return 17
+            if 100 * c < 132 * k:
+                return 18
+            if 3 * c < 5 * k:
+                return 19
+            if 1000 * c < 1965 * k:
+                return 20
+            if 1000 * c < 2275 * k:
+                return 21
+            return 6
+        return (c >> (lg_k - 4)) & 15
+    pts = [(lg, c) for lg in range(4, 27) for c in sorted(set(
+        [0, 1] + [((1 << lg) * m) // 1000 + d for m in (750, 1100, 1320, 1666, 1667, 1965, 2275, 2300, 2374, 2375, 2376, 3000, 7777, 20000) for d in (-1, 0, 1)])) if 0 <= c < 2 ** 32]
+    pf = C.fn_by_semantics(prog, "cpc::compression", "determine_pseudo_phase", 2, lambda call: all(call(lg, c) == spec_phase(lg, c) for lg, c in pts[::37]))
+    n_p = 0
+    if pf is not None:
+        n_p = 1
+        e_ = C.ret_expr(prog, pf)
+        verdict, wit = None, ""
+        try:
+            verdict = True
+            for lg, c in pts:
+                got = formula.evaluate(e_, {"@prog": prog, pf.local_name(1) or "lg_k": lg, pf.local_name(2) or "num_coupons": c})
+                if got != spec_phase(lg, c):
+                    verdict, wit = False, "lg_k=%d C=%d: phase %r, published %d" % (lg, c, got, spec_phase(lg, c))
+                    break
+        except (formula.Uneval, TypeError):
+            verdict = None
+        res.tri(verdict, "C18.P", "C18.P|pseudo-phase", "%s differs from the published pseudo-phase function: %s" % (pf.id, wit), pf.id)
+    res.rule("C18.P", n_p, 1, "CPC pseudo-phase function")
+
     # ---------------- C18.S frequent-items sizing (imported from C07.S): the configured maximum map size bounds the map that
     # is actually built, and the capacity the sketch reports is 3/4 of it
     try:
